@@ -17,8 +17,11 @@
    Parts of the property that do NOT hold, or did not hold, of the code; each keeps
    its full statement here, a witness (_refuted) and the part that does hold
    (_partial):
-     D7  canvas accepts the undocumented keyword robsddir     C08_tables_match_docs_canvas_*, C08_canvas_accepts_undocumented_robsddir,
-                                                              C08_accept_iff_documented_canvas_partial
+     DOC  in NO mode are the C tables what the manual pages say: Conf/DocExceptions.v lists the differences (undocumented
+          variables incl. D7 = canvas robsddir, documented variables without a row, directories that are not checked,
+          regress-env repeatable, a default spelled through an undocumented variable, two initialisers), proved to be exactly
+          the difference                                       C08_accept_iff_documented_refuted / _partial, C08_doc_exceptions_exact,
+                                                              C08_exception_*, C08_canvas_accepts_undocumented_robsddir
    HISTORICAL PINS - repaired in /repo (c0e596d, 78f946e, 35cfab1); the theorems named _refuted below are conditioned on a
    translator switch that is now true, hence vacuous of the present source and kept only so that a return of the
    defect is recognised; they are not results:
@@ -28,9 +31,9 @@
      D18 an accepted configuration whose robsddir depends on ${builddir} made every reference to ${builddir}
          recurse without bound (stack exhaustion)              C08_accepted_no_abort_refuted / _partial
                                                               (findings/D18_builddir_reentry.md); now C08_accepted_no_abort_holds_now *)
-From Robsd Require Import Conf.ConfDefs Conf.ConfSpec Conf.DocSpec Conf.ConfTie Conf.ConfSound Conf.ConfComplete
+From Robsd Require Import Conf.ConfDefs Conf.ConfSpec Conf.DocSpec Conf.DocExceptions Conf.ConfDocWitness Conf.ConfTie Conf.ConfSound Conf.ConfComplete
   Conf.ConfDiag Conf.ConfReject Conf.ConfRdomain Conf.ConfValue Conf.ConfInst Conf.ConfPrim Conf.ConfTrack Conf.ConfProofs
-  Conf.ConfRows Conf.ConfDocIff Conf.ConfAbort Conf.ConfAbortInst Conf.ConfValueAll Conf.ConfLexLaws.
+  Conf.ConfRows Conf.ConfDocIff Conf.ConfAbort Conf.ConfAbortInst Conf.ConfValueAll Conf.ConfLexLaws Conf.ConfPins Conf.ConfValueMore.
 From RobsdGen Require Import Gen_Conf.
 From Coq Require Import String.
 Local Open Scope N_scope.
@@ -54,24 +57,124 @@ Theorem C08_oracle_reflects_documented_grammar : forall E m text,
 Proof. exact accept_iff_conforms_doc. Qed.
 Print Assumptions C08_oracle_reflects_documented_grammar.
 
-(* THE HEADLINE CLAUSE: for the four modes whose table matches its manual page, the implementation accepts a
-   text exactly when the text conforms to the DOCUMENTED grammar, and then defines exactly the dictionary the
-   documented reading defines.  The regenerated table and the documented one have the same rows in another
-   order; no name can match two rows ([uniq_match], computed; patterns included), so "first matching row" does
-   not see the order (Conf/ConfRows.v, Conf/ConfDocIff.v). *)
-Theorem C08_accept_iff_documented : forall E m text c, m <> CANVAS ->
-  (config_parse E (tables_of m) text = Accepted c <-> text_conforms E (doc_tables m) text c).
-Proof. exact accept_iff_documented. Qed.
-Print Assumptions C08_accept_iff_documented.
+(* THE HEADLINE CLAUSE, full statement [accept_iff_documented_statement m]: the implementation accepts a text exactly when
+   the text conforms to the DOCUMENTED grammar ([doc_tables m]: the rows of Conf/DocSpec.v, transcribed line by line from the
+   manual pages, nothing fitted).  REFUTED IN EVERY MODE: each mode has a configuration the code accepts and the documented
+   grammar does not (robsd, robsd-cross: a directory spelled with the undocumented ${trace}; robsd-ports: a chroot that
+   does not exist; robsd-regress: regress-env given twice; canvas: robsddir, D7). *)
+Theorem C08_accept_iff_documented_refuted : forall m, ~ accept_iff_documented_statement m.
+Proof. exact accept_iff_documented_refuted. Qed.
+Print Assumptions C08_accept_iff_documented_refuted.
 
-(* full statement for canvas: the same with m = CANVAS.  Refuted by C08_canvas_accepts_undocumented_robsddir (D7).
-   What holds, exactly: canvas accepts the documented grammar extended by ONE row, a settable required
-   directory robsddir - nothing else differs. *)
-Theorem C08_accept_iff_documented_canvas_partial : forall E text c,
-  t_grammar doc_tables_canvas_as_built = canvas_extra_row :: doc_table CANVAS
-  /\ (config_parse E (tables_of CANVAS) text = Accepted c <-> text_conforms E doc_tables_canvas_as_built text c).
-Proof. exact (fun E text c => conj eq_refl (accept_iff_documented_canvas_as_built E text c)). Qed.
-Print Assumptions C08_accept_iff_documented_canvas_partial.
+(* What holds, exactly, in all five modes: the implementation accepts a text iff it conforms to the documented grammar WITH
+   THE EXCEPTIONS of Conf/DocExceptions.v applied, and then both define the same dictionary.  The table of
+   [doc_tables_as_built m] is the documented rows with [doc_exceptions m] applied (second conjunct); the regenerated table has
+   the same rows in another order; no name can match two rows ([uniq_match], computed; patterns included), so "first matching
+   row" does not see the order (Conf/ConfRows.v, Conf/ConfDocIff.v).  The two behaviour switches (rdomain body, diagnostics
+   path) are the source's on both sides: acceptance does not depend on them, their clauses are C08_rdomain_cycle_holds_now and
+   C08_reject_names_file_holds_now. *)
+Theorem C08_accept_iff_documented_partial : forall E m text c,
+  (config_parse E (tables_of m) text = Accepted c <-> text_conforms E (doc_tables_as_built m) text c)
+  /\ t_grammar (doc_tables_as_built m) = canon (fold_left apply_exception (map snd (doc_exceptions m)) (doc_rows m)).
+Proof. exact (fun E m text c => conj (accept_iff_as_built E m text c) (as_built_is_canon m)). Qed.
+Print Assumptions C08_accept_iff_documented_partial.
+
+(* THE LIST OF EXCEPTIONS IS EXACTLY THE DIFFERENCE between the documented rows and the regenerated C tables: computed from
+   the two tables (names only in one, rows of one name that differ) it is the hand-typed, annotated list of
+   Conf/DocExceptions.v; every entry is proper (an added name is undocumented, a dropped or replaced name is documented and
+   the replacement differs).  An edit of a C table, of DocSpec or of the list stops this proof. *)
+Theorem C08_doc_exceptions_exact : forall m,
+  xcanon (table_diff (doc_table m) (canon (t_grammar (tables_of m)))) = xcanon (map snd (doc_exceptions m))
+  /\ forallb (proper (doc_rows m)) (map snd (doc_exceptions m)) = true
+  /\ canon (t_grammar (tables_of m)) <> doc_table m.
+Proof. exact (fun m => conj (exceptions_are_the_difference m) (conj (exceptions_proper m) (tables_match_docs_refuted m))). Qed.
+Print Assumptions C08_doc_exceptions_exact.
+
+(* one witness per class: a configuration (and template) on which the reader on the regenerated tables and the reader on the
+   purely documented tables differ - each replayed on the real robsd-config (findings/C08_doc_vs_code.md) *)
+Theorem C08_exception_undocumented_variable :
+  code_cmd ROBSD robsd_min [] ("${build-user}" ++ nl) = (0%N, bs ("build" ++ nl))
+  /\ fst (doc_cmd ROBSD robsd_min [] ("${build-user}" ++ nl)) = 1%N
+  /\ code_accepts ROBSD (robsd_min ++ "bsd-srcdir ""${trace}/r""" ++ nl) = true
+  /\ doc_accepts ROBSD (robsd_min ++ "bsd-srcdir ""${trace}/r""" ++ nl) = false.
+Proof. exact wit_undocumented_variable. Qed.
+Print Assumptions C08_exception_undocumented_variable.
+
+Theorem C08_exception_documented_without_row :
+  fst (code_cmd ROBSD_REGRESS regress_min [] ("${regress-obj}" ++ nl)) = 1%N
+  /\ doc_cmd ROBSD_REGRESS regress_min [] ("${regress-obj}" ++ nl) = (0%N, bs nl)
+  /\ fst (code_cmd ROBSD_REGRESS regress_min [] ("${regress-a-quiet}" ++ nl)) = 1%N
+  /\ doc_cmd ROBSD_REGRESS regress_min [] ("${regress-a-quiet} ${regress-a-root}" ++ nl) = (0%N, bs ("0 0" ++ nl))
+  /\ fst (code_cmd ROBSD_CROSS cross_min [] ("${target}" ++ nl)) = 1%N
+  /\ doc_cmd ROBSD_CROSS cross_min [] ("${target}" ++ nl) = (0%N, bs nl)
+  /\ code_cmd ROBSD_REGRESS ("robsddir ""/r""" ++ nl ++ "regress ""a"" quiet obj { ""o"" }" ++ nl) [] ("${regress-a-quiet} ${regress-obj}" ++ nl)
+     = doc_cmd ROBSD_REGRESS ("robsddir ""/r""" ++ nl ++ "regress ""a"" quiet obj { ""o"" }" ++ nl) [] ("${regress-a-quiet} ${regress-obj}" ++ nl).
+Proof. exact wit_documented_without_row. Qed.
+Print Assumptions C08_exception_documented_without_row.
+
+Theorem C08_exception_directory_not_checked :
+  code_accepts ROBSD_PORTS (ports_min "/nonexistent") = true /\ doc_accepts ROBSD_PORTS (ports_min "/nonexistent") = false
+  /\ code_accepts ROBSD_PORTS (ports_min "/r") = true /\ doc_accepts ROBSD_PORTS (ports_min "/r") = true
+  /\ code_accepts ROBSD_PORTS (ports_min "/r" ++ "ports-dir ""/nonexistent""" ++ nl) = true
+  /\ doc_accepts ROBSD_PORTS (ports_min "/r" ++ "ports-dir ""/nonexistent""" ++ nl) = false.
+Proof. exact wit_directory_not_checked. Qed.
+Print Assumptions C08_exception_directory_not_checked.
+
+Theorem C08_exception_repeatable_undocumented :
+  code_accepts ROBSD_REGRESS (regress_min ++ "regress-env { ""A=1"" }" ++ nl ++ "regress-env { ""B=2"" }" ++ nl) = true
+  /\ doc_accepts ROBSD_REGRESS (regress_min ++ "regress-env { ""A=1"" }" ++ nl ++ "regress-env { ""B=2"" }" ++ nl) = false
+  /\ code_cmd ROBSD_REGRESS (regress_min ++ "regress-env { ""A=1"" }" ++ nl ++ "regress-env { ""B=2"" }" ++ nl) [] ("${regress-env}" ++ nl)
+     = (0%N, bs ("A=1 B=2" ++ nl)).
+Proof. exact wit_repeatable_undocumented. Qed.
+Print Assumptions C08_exception_repeatable_undocumented.
+
+Theorem C08_exception_default_text :
+  code_cmd ROBSD_REGRESS regress_min [] ("${regress-user}" ++ nl) = doc_cmd ROBSD_REGRESS regress_min [] ("${regress-user}" ++ nl)
+  /\ code_cmd ROBSD_REGRESS regress_min ["build-user=x"%string] ("${regress-user}" ++ nl) = (0%N, bs ("x" ++ nl))
+  /\ doc_cmd ROBSD_REGRESS regress_min ["build-user=x"%string] ("${regress-user}" ++ nl) = (0%N, bs ("build" ++ nl)).
+Proof. exact wit_default_text. Qed.
+Print Assumptions C08_exception_default_text.
+
+(* the exceptions of class XC_representation ("Defaults to no" is { NULL } in C) change nothing a lookup can see; the token
+   exception (the word s) changes a diagnostic, not acceptance *)
+Theorem C08_exception_representation_harmless : forall m,
+  forallb (fun cx => match cx with
+                     | (XC_representation, X_replace g) =>
+                         existsb (fun d => beq (gr_kw d) (gr_kw g) && same_default_b d g) (doc_rows m)
+                     | (XC_representation, _) => false
+                     | _ => true
+                     end) (doc_exceptions m) = true
+  /\ (forall E d g, same_default_b d g = true -> default_value E d = default_value E g).
+Proof. exact (fun m => conj (representation_exceptions_harmless m) (fun E d g => same_default_value_b E d g)). Qed.
+Print Assumptions C08_exception_representation_harmless.
+
+(* canvas.conf.5:24-27 writes  step "name" [options]: by the page a step without command conforms; config_parse_canvas_step
+   rejects it *)
+Theorem C08_step_without_command_refuted :
+  doc_step_shape false false = true /\ code_step_shape false false = false
+  /\ (exists c, config_parse wit_env (tables_of CANVAS) (bs (canvas_min "step ""a""")) = Rejected c
+                /\ c_diags c = [mk_diag P_conf 3 M_step_command_missing])
+  /\ code_accepts CANVAS (canvas_min "step ""a"" command { ""true"" }") = true
+  /\ code_accepts CANVAS (canvas_min "step ""a"" parallel") = false.
+Proof. exact wit_step_without_command. Qed.
+Print Assumptions C08_step_without_command_refuted.
+
+(* documented AND accepted: a second bsd-diff / x11-diff / ports-diff whose pattern matches nothing defines nothing, so it is
+   never "given twice" (robsd.conf.5:69-71 "silently ignored if glob does not yield any matches") *)
+Theorem C08_glob_without_match_is_ignored : forall E T c g e s,
+  gr_fn g = PF_glob -> en_val e = E_str s -> e_glob E s = GL_nomatch -> apply_entry E T c g e = Some c.
+Proof. exact glob_without_match_is_ignored. Qed.
+Print Assumptions C08_glob_without_match_is_ignored.
+
+(* VALUE-ORACLE REFLECTION: on an accepted configuration the whole command - exit status, standard output, every diagnostic,
+   trap flag - on the regenerated tables IS the command on the documented tables with the exceptions applied, for every -v
+   list and every template.  (The oracle the harness applies to the implementation is the command on the PURELY documented
+   tables, [spec_config]; where the two differ is therefore exactly where an exception is touched.) *)
+Theorem C08_value_oracle_reflection : forall E m text c vars stdin,
+  config_parse E (tables_of m) text = Accepted c ->
+  robsd_config E (tables_of m) text vars stdin = robsd_config E (doc_tables_as_built m) text vars stdin.
+Proof. exact robsd_config_as_built. Qed.
+Print Assumptions C08_value_oracle_reflection.
 
 (* the order of the rows of a table never matters once no name matches two rows *)
 Theorem C08_row_order_irrelevant : forall G G' n kw,
@@ -80,25 +183,20 @@ Theorem C08_row_order_irrelevant : forall G G' n kw,
 Proof. exact (fun G G' n kw Hs Hu => conj (gfi_same_rows G G' n Hs Hu) (gfk_same_rows G G' kw Hs Hu)). Qed.
 Print Assumptions C08_row_order_irrelevant.
 
-(* ------------------------------------------------------------------ tables = documentation *)
-(* keywords, types, parsers, REQ/REP/PAT/EARLY, defaults of every row, up to the order of the rows *)
-Theorem C08_tables_match_docs : forall m, m <> CANVAS ->
-  canon (t_grammar (tables_of m)) = doc_table m.
-Proof. exact tables_match_docs_non_canvas. Qed.
-Print Assumptions C08_tables_match_docs.
+(* ------------------------------------------------------------------ tables = documentation + exceptions *)
+(* keywords, types, parsers, REQ/REP/PAT/EARLY, defaults of every row, up to the order of the rows, all five modes *)
+Theorem C08_tables_match_docs_with_exceptions : forall m,
+  canon (t_grammar (tables_of m)) = as_built_table m.
+Proof. exact tables_match_as_built. Qed.
+Print Assumptions C08_tables_match_docs_with_exceptions.
 
-(* full statement for canvas: canon (t_grammar (tables_of CANVAS)) = doc_table CANVAS.  D7: *)
+(* D7 in particular *)
 Theorem C08_tables_match_docs_canvas_refuted :
   grammar_for_keyword (t_grammar (tables_of CANVAS)) kw_robsddir <> None /\
   grammar_for_keyword (doc_table CANVAS) kw_robsddir = None /\
   canon (t_grammar (tables_of CANVAS)) <> doc_table CANVAS.
 Proof. exact tables_match_docs_canvas_refuted. Qed.
 Print Assumptions C08_tables_match_docs_canvas_refuted.
-
-Theorem C08_tables_match_docs_canvas_partial :
-  canon (t_grammar (tables_of CANVAS)) = insert_row canvas_extra_row (doc_table CANVAS).
-Proof. exact tables_match_docs_canvas_partial. Qed.
-Print Assumptions C08_tables_match_docs_canvas_partial.
 
 Theorem C08_canvas_accepts_undocumented_robsddir :
   (exists c, config_parse wit_env (tables_of CANVAS) wit_canvas_text = Accepted c
@@ -110,12 +208,23 @@ Print Assumptions C08_canvas_accepts_undocumented_robsddir.
 
 (* the words of the syntax, the rdomain range, yes/no *)
 Theorem C08_constants_match_docs :
-  filter (fun r => match tr_key r with [] => false | _ => true end) token_table = doc_tokens
+  filter (fun r => match tr_key r with [] => false | _ => true end) token_table = tokens_as_built
   /\ (forall m, t_rdomain_min (tables_of m) = doc_rdomain_first /\ (t_rdomain_max (tables_of m) - 1)%Z = doc_rdomain_last)
   /\ (forall m, word_token (tables_of m) 0 [121; 101; 115] = mk_token T_BOOLEAN 0 [] doc_yes
                 /\ word_token (tables_of m) 0 [110; 111] = mk_token T_BOOLEAN 0 [] doc_no).
 Proof. exact (conj tokens_match_docs (conj rdomain_range_matches_docs yes_no_tokens)). Qed.
 Print Assumptions C08_constants_match_docs.
+
+(* PINS of the parsing functions (text / structure, not semantics): harness/t_conf.py refuses any other body of
+   config_parse_keyword (no_repeat computed before the parser runs; append on CONFIG_APPEND; then "already defined") and of
+   config_validate; the CONFIG_* codes every value parser returns are regenerated ([parser_returns]) and are, as sets, the
+   outcomes the model's parsers were written with ([parser_outcomes], hand-typed from Conf/ConfDefs.v) *)
+Theorem C08_parser_return_codes_pinned :
+  forallb (fun x => same_kinds (flat_map code_kind (snd x)) (parser_outcomes (fst x))) parser_returns = true
+  /\ map fst parser_returns = [PF_boolean; PF_integer; PF_string; PF_list; PF_glob; PF_user; PF_directory; PF_canvas_directory;
+                               PF_canvas_step; PF_regress; PF_regress_env; PF_regress_timeout].
+Proof. exact parser_returns_pinned. Qed.
+Print Assumptions C08_parser_return_codes_pinned.
 
 (* ------------------------------------------------------------------ rejection *)
 (* full statement: [reject_names_file_statement] - every rejection leaves a
@@ -293,6 +402,61 @@ Theorem C08_value_template_exact : forall E T c kw v,
   cfg_interp E T c (ref_of kw) = (c, IOk (cstr (render v))).
 Proof. exact interp_var_plain. Qed.
 Print Assumptions C08_value_template_exact.
+
+(* THE NON-PLAIN SETTABLE KEYWORDS.  ${regress} - "All configured regression tests" (robsd-config.8:78, its EXAMPLES): after an
+   accepted robsd-regress configuration the variable holds the paths of all regress entries in the order written and a
+   reference yields them joined by single spaces, whatever options the tests carry and whatever else is configured *)
+Theorem C08_regress_value : forall E es c,
+  run_entries E (tables_of ROBSD_REGRESS) (cfg_init (tables_of ROBSD_REGRESS)) es = Some c -> regress_paths es <> [] ->
+  find_var (c_vars c) str_regress = Some (VList (regress_paths es))
+  /\ lookup1 E (tables_of ROBSD_REGRESS) false c str_regress = (c, Some (join_spec (regress_paths es))).
+Proof. exact regress_value. Qed.
+Print Assumptions C08_regress_value.
+
+(* ${regress-env}: the items of all regress-env entries in the order written *)
+Theorem C08_regress_env_value : forall E es c,
+  run_entries E (tables_of ROBSD_REGRESS) (cfg_init (tables_of ROBSD_REGRESS)) es = Some c ->
+  list_content c kw_regress_env = regress_env_items es
+  /\ (regress_env_items es <> [] -> find_var (c_vars c) kw_regress_env = Some (VList (regress_env_items es))).
+Proof. exact regress_env_value. Qed.
+Print Assumptions C08_regress_env_value.
+
+(* ${canvas-dir}: the string of the canvas-dir entry as written *)
+Theorem C08_canvas_dir_value : forall E es c s,
+  run_entries E (tables_of CANVAS) (cfg_init (tables_of CANVAS)) es = Some c -> canvas_dir_of es = Some s ->
+  find_var (c_vars c) kw_canvas_dir = Some (VStr s) /\ lookup1 E (tables_of CANVAS) false c kw_canvas_dir = (c, Some s).
+Proof. exact canvas_dir_value. Qed.
+Print Assumptions C08_canvas_dir_value.
+
+(* RDOMAIN THROUGH THE INTERPOLATION: a text with n references ${rdomain} - expanded while the file is read (the env option of
+   a test) or as a template - yields the values of n successive calls of config_default_rdomain, each followed by the blank
+   of the text, and leaves the counter n steps further; both kinds of expansion use the ONE counter: a references while
+   reading, then b in a template, print the values 0..a-1 and a..a+b-1 of the cycle of C08_rdomain_cycle_holds_now *)
+Theorem C08_rdomain_through_template : forall E n c,
+  (3 <= t_depth_limit (tables_of ROBSD_REGRESS))%nat -> find_var (c_vars c) kw_rdomain = None ->
+  cfg_interp E (tables_of ROBSD_REGRESS) c (rd_tmpl n)
+  = (rd_after (tables_of ROBSD_REGRESS) n c,
+     IOk (flat_map (fun k => render_Z (rd_val (tables_of ROBSD_REGRESS) k c) ++ [SP]) (seq 0 n)))
+  /\ cfg_interp_early E (tables_of ROBSD_REGRESS) c (rd_tmpl n)
+     = (rd_after (tables_of ROBSD_REGRESS) n c,
+        IOk (flat_map (fun k => render_Z (rd_val (tables_of ROBSD_REGRESS) k c) ++ [SP]) (seq 0 n))).
+Proof.
+  exact (fun E n c Hd Hn =>
+    eq_ind _ (fun o => cfg_interp E (tables_of ROBSD_REGRESS) c (rd_tmpl n) = (rd_after (tables_of ROBSD_REGRESS) n c, IOk o)
+                       /\ cfg_interp_early E (tables_of ROBSD_REGRESS) c (rd_tmpl n) = (rd_after (tables_of ROBSD_REGRESS) n c, IOk o))
+           (rdomain_template E n c Hd Hn) _ (rd_outs_values (tables_of ROBSD_REGRESS) n c)).
+Qed.
+Print Assumptions C08_rdomain_through_template.
+
+Theorem C08_rdomain_one_counter : forall E a b c,
+  (3 <= t_depth_limit (tables_of ROBSD_REGRESS))%nat -> find_var (c_vars c) kw_rdomain = None ->
+  let '(c1, r1) := cfg_interp_early E (tables_of ROBSD_REGRESS) c (rd_tmpl a) in
+  let '(c2, r2) := cfg_interp E (tables_of ROBSD_REGRESS) c1 (rd_tmpl b) in
+  c2 = rd_after (tables_of ROBSD_REGRESS) (a + b) c
+  /\ r1 = IOk (flat_map (fun k => render_Z (rd_val (tables_of ROBSD_REGRESS) k c) ++ [SP]) (seq 0 a))
+  /\ r2 = IOk (flat_map (fun k => render_Z (rd_val (tables_of ROBSD_REGRESS) (a + k) c) ++ [SP]) (seq 0 b)).
+Proof. exact rdomain_one_counter. Qed.
+Print Assumptions C08_rdomain_one_counter.
 
 (* successive rdomain references are pairwise DISTINCT over every window of 245 = |11..255| references, not only
    consecutive ones (body of config_default_rdomain as the translator finds it now) *)
